@@ -115,6 +115,7 @@ def run_life(ctx, prop, exe, n_random, n_regular):
             ctx.tie_failures.append("driver model life failed: " + err[-200:])
         else:
             reg = L.parse_cases(impl)
+            L.monitor_accepts_model(ctx, "life", model)
             done = set()
             for d in L.diff_cases(impl, model):
                 if any(d["header"].startswith("# case %d " % c) for c in frozen_reg) or "skipped-tail" in d["header"]:
